@@ -7,6 +7,41 @@ import (
 	"time"
 )
 
+// ---- logical clock ------------------------------------------------------------
+// Deadlines are simulated: SetDeadline/SetReadDeadline translate the wall-clock instant they are given into a
+// logical instant (logical now + the distance to the wall clock), and Tick advances logical time, expiring
+// the deadlines of blocked calls. No check ever waits for real time to pass.
+type Clock struct {
+	mu    sync.Mutex
+	now   int64
+	conns []*FakeConn
+	lis   []*FakeListener
+}
+
+func (k *Clock) Now() int64 {
+	k.mu.Lock()
+	defer k.mu.Unlock()
+	return k.now
+}
+func (k *Clock) logical(t time.Time) int64 {
+	d := time.Until(t)
+	return k.Now() + int64((d+500*time.Millisecond)/time.Second)
+}
+func (k *Clock) Tick(sec int64) {
+	k.mu.Lock()
+	k.now += sec
+	now := k.now
+	conns := append([]*FakeConn(nil), k.conns...)
+	lis := append([]*FakeListener(nil), k.lis...)
+	k.mu.Unlock()
+	for _, c := range conns {
+		c.expire(now)
+	}
+	for _, l := range lis {
+		l.expire(now)
+	}
+}
+
 // ---- listener ---------------------------------------------------------------
 
 type tempErr struct{}
@@ -31,6 +66,29 @@ type FakeListener struct {
 	rec      *Rec
 	OnAccept func() // called (unlocked) every time Accept is entered
 	Waiting  int    // number of times Accept found the queue empty
+	Parked   bool   // Accept is blocked on an empty queue right now
+	clk      *Clock
+	dlL      int64 // logical accept deadline
+	timedOut bool
+}
+
+func (l *FakeListener) expire(now int64) {
+	l.mu.Lock()
+	if l.Parked && l.dlL > 0 && l.dlL <= now {
+		l.timedOut = true
+		l.cond.Broadcast()
+	}
+	l.mu.Unlock()
+}
+func (l *FakeListener) IsClosed() bool {
+	l.mu.Lock()
+	defer l.mu.Unlock()
+	return l.closed
+}
+func (l *FakeListener) IsParked() bool {
+	l.mu.Lock()
+	defer l.mu.Unlock()
+	return l.Parked
 }
 
 func NewFakeListener(rec *Rec) *FakeListener {
@@ -72,9 +130,15 @@ func (l *FakeListener) Accept() (net.Conn, error) {
 		if l.closed {
 			return nil, &net.OpError{Op: "accept", Net: "fake", Err: closedErr{}}
 		}
+		if l.timedOut {
+			l.timedOut = false
+			return nil, &net.OpError{Op: "accept", Net: "fake", Err: tempErr{}}
+		}
 		l.Waiting++
+		l.Parked = true
 		l.cond.Broadcast()
 		l.cond.Wait()
+		l.Parked = false
 	}
 }
 
@@ -100,6 +164,9 @@ func (l *FakeListener) Addr() net.Addr {
 func (l *FakeListener) SetDeadline(t time.Time) error {
 	l.mu.Lock()
 	l.deadline = t
+	if l.clk != nil {
+		l.dlL = l.clk.logical(t)
+	}
 	l.mu.Unlock()
 	return nil
 }
@@ -134,6 +201,9 @@ type FakeConn struct {
 	rec       *Rec
 	quiet     bool // do not emit rd/arm events (bulk scenarios)
 	Extra     E    // extra fields added to wr events (e.g. the connection's key)
+	clk       *Clock
+	dlL       int64 // logical read deadline
+	AtGate    bool  // the connection goroutine is parked in RemoteAddr
 	RaddrGate chan struct{}
 	// gate: when non-nil, Read parks before looking at input until released (C17 schedules)
 }
@@ -149,6 +219,26 @@ func (c *FakeConn) emit(e E) {
 		e["c"] = c.ID
 		c.rec.Emit(e)
 	}
+}
+
+func (c *FakeConn) expire(now int64) {
+	c.mu.Lock()
+	if c.blocked && c.armed && c.dlL > 0 && c.dlL <= now && !c.closed {
+		c.fire = true
+		c.blocked = false
+		c.cond.Broadcast()
+	}
+	c.mu.Unlock()
+}
+func (c *FakeConn) IsBlocked() bool {
+	c.mu.Lock()
+	defer c.mu.Unlock()
+	return c.blocked && len(c.buf) == 0 && !c.fire && !c.eof
+}
+func (c *FakeConn) IsAtGate() bool {
+	c.mu.Lock()
+	defer c.mu.Unlock()
+	return c.AtGate
 }
 
 func (c *FakeConn) Read(p []byte) (int, error) {
@@ -167,8 +257,8 @@ func (c *FakeConn) Read(p []byte) (int, error) {
 				c.buf = c.buf[1:]
 			}
 			c.Reads++
-			if !c.armed && !c.quiet {
-				c.emit(E{"e": "rdunarmed"})
+			if !c.quiet {
+				c.emit(E{"e": "rd", "n": n, "armed": c.armed})
 			}
 			return n, nil
 		}
@@ -184,7 +274,7 @@ func (c *FakeConn) Read(p []byte) (int, error) {
 		if !c.blocked {
 			c.blocked = true
 			c.Blocks++
-			c.emit(E{"e": "rdblock", "armed": c.armed})
+			c.emit(E{"e": "rdblock", "armed": c.armed, "dl": c.dlL})
 		}
 		c.cond.Broadcast()
 		c.cond.Wait()
@@ -224,7 +314,13 @@ func (c *FakeConn) Close() error {
 func (c *FakeConn) LocalAddr() net.Addr { return &net.TCPAddr{IP: net.ParseIP("192.0.2.1"), Port: 49} }
 func (c *FakeConn) RemoteAddr() net.Addr {
 	if c.RaddrGate != nil {
+		c.mu.Lock()
+		c.AtGate = true
+		c.mu.Unlock()
 		<-c.RaddrGate
+		c.mu.Lock()
+		c.AtGate = false
+		c.mu.Unlock()
 	}
 	return c.remote
 }
@@ -234,9 +330,13 @@ func (c *FakeConn) SetReadDeadline(t time.Time) error {
 	c.armed = !t.IsZero()
 	c.armedAt = t
 	c.Arms++
+	if c.clk != nil && !t.IsZero() {
+		c.dlL = c.clk.logical(t)
+	}
+	dl := c.dlL
 	c.mu.Unlock()
 	if !c.quiet {
-		c.emit(E{"e": "arm", "finite": !t.IsZero()})
+		c.emit(E{"e": "arm", "finite": !t.IsZero(), "dl": dl})
 	}
 	return nil
 }
